@@ -5,6 +5,7 @@ package main
 import (
 	"fmt"
 	"path/filepath"
+	"strings"
 )
 
 // cVarName: the variable a (cast-stripped) expression reads, "" otherwise.
@@ -47,15 +48,48 @@ func cShiftRightOne(n *cnode) *cnode {
 
 func init() {
 	register(&Rule{
-		ID: "MI", Props: []string{"C10"}, Min: 2,
+		ID: "MI", Props: []string{"C10"}, Min: 5,
 		Doc: `"an occurrence that starts with deleted pattern positions is found from the first text position on": in ManberIndel (apat_search.c, clang AST) the transition of level e
 reads the state of level e-1 of the SAME column shifted by one (the term pr[1] >> 1: a pattern position deleted, no text consumed). A state array with such a term has to be closed under it before the first
 column as well: the loop that sets the initial state of each level (*pr = v) must carry v to (v >> 1) | s for the next level, s being the start bit the scan ORs in — the textbook initial condition
 1^e 0^(m-e) of Wu & Manber. With all levels started at the same v, an occurrence whose first e pattern positions are deleted is not found at the start of the window (the state it needs is only there one
 column later). Two obligations: (1) the transition holds the three edit terms (pr[0], pr[0] >> 1, pr[1] >> 1) — otherwise the matcher called for hasIndel does not do indels; (2) the initialisation loop applies the
-closure. The substitution-only sibling ManberSub has no same-column term and is not concerned. This decides the shape of the initial condition, not the matcher.`,
+closure. The substitution-only sibling ManberSub has no same-column term and is not concerned. (3) In the three scanners no value that went through '&' is the operand of a shift: the masks (smat[c], the complement of the obligatory positions) are indexed by the positions of the new column and apply to the shifted state. This decides the shape of the initial condition and of the transition, not the matcher.`,
 		Run: func(c *Ctx, s *Sink) {
 			dir := filepath.Join(c.Repo, "pkg/obiapat")
+			// (3) the masks are applied to the shifted state, in the three scanners
+			for _, fname := range []string{"ManberNoErr", "ManberSub", "ManberIndel"} {
+				key3 := "pkg/obiapat/apat_search.c:" + fname + ":masks-applied-after-the-shift"
+				sf, err := clangFunc(dir, "apat_search.c", fname)
+				if err != nil {
+					s.Undecided(nil, key3, 0, err.Error())
+					continue
+				}
+				shifts, bad := 0, ""
+				sf.walk(func(n *cnode, _ []*cnode) {
+					if n.Kind != "BinaryOperator" || n.Op != ">>" || len(n.Inner) != 2 {
+						return
+					}
+					shifts++
+					n.Inner[0].walk(func(m *cnode, _ []*cnode) {
+						if m.Kind == "BinaryOperator" && m.Op == "&" && bad == "" {
+							bad = strings.Join(cDeclRefNames(m), " & ")
+						}
+					})
+				})
+				p3 := fmt.Sprintf("pkg/obiapat/apat_search.c:%d", cLine(sf))
+				switch {
+				case shifts == 0:
+					o := s.add(Undecided, nil, key3, 0, "no shift of the state found")
+					o.Pos = p3
+				case bad != "":
+					o := s.add(Violation, nil, key3, 0, "a masked value ("+bad+") is shifted: bit i of a mask (the symbols accepted at, or the mismatch allowed at, pattern position i) constrains position i of the NEW column, so the state is shifted first and masked after — masked first, the constraint of an obligatory position (#) lands on its neighbour: AC#GT with one mismatch accepts aaGt and refuses acTt")
+					o.Pos = p3
+				default:
+					o := s.add(Pass, nil, key3, 0, fmt.Sprintf("%d shifts, none of a masked value", shifts))
+					o.Pos = p3
+				}
+			}
 			fn, err := clangFunc(dir, "apat_search.c", "ManberIndel")
 			key1 := "pkg/obiapat/apat_search.c:ManberIndel:transition-holds-ins-sub-del"
 			key2 := "pkg/obiapat/apat_search.c:ManberIndel:initial-states-closed-under-deletion"
